@@ -826,6 +826,10 @@ class SegmentationImage:
         if start_label <= 0:
             raise ValueError('start_label must be > 0.')
 
+        if start_label + self.nlabels - 1 > np.iinfo(self.data.dtype).max:
+            raise ValueError('start_label is too large for the data type '
+                             'of the segmentation array.')
+
         if ((self.labels[0] == start_label)
                 and (self.labels[-1] - self.labels[0] + 1) == self.nlabels):
             return
